@@ -32,7 +32,9 @@ ASSUMPTIONS = [
     'optimizers needing absent libraries (polychord, dypolychord) and plugin components (ace, BHMie) cannot be discovered here and are not judged',
     'CLI differential: taurex.taurex.main() run in-process with -i -o -S on files the harness wrote (pickle cross-sections, pickle CIA); spectrum compared with the same components built through the library, rtol 1e-9',
 ]
-REQUIRED = {'part:sections': 0.2, 'part:cli': 0.08, 'part:selectors': 0.002, 'part:retrieval': 0.1, 'negative': 0.08}
+REQUIRED = {'part:sections': 0.2, 'part:cli': 0.08, 'part:selectors': 0.002, 'part:retrieval': 0.06, 'negative': 0.08}
+# coverage-guided extra (thorough tier): pure-Python taurex modules on this property's path, instrumented by atheris
+FUZZ = {'include': ['taurex.parameter', 'taurex.util.util'], 'runs': 6000, 'workers': 4}
 
 # family -> (ClassFactory attribute, rst file, {selector: class name})
 DOCUMENTED = {
@@ -77,7 +79,7 @@ def _case(draw):
     part = draw(st.sampled_from(['selectors', 'sections', 'cli', 'retrieval', 'sections', 'cli', 'retrieval', 'sections']))
     c = {'part': part}
     if part == 'selectors':
-        c['case_variant'] = draw(st.integers(0, 3))
+        c['case_variant'] = draw(S.ints(0, 3))
         return c
     f = st.floats
     c['family'] = draw(st.sampled_from(['transmission', 'emission', 'directimage']))
@@ -86,30 +88,30 @@ def _case(draw):
                   'kappa_v1': draw(_opt(f(1e-3, 0.1))), 'kappa_v2': draw(_opt(f(1e-3, 0.1))), 'alpha': draw(_opt(f(0.1, 0.9))),
                   'T_int': draw(_opt(f(50, 500))), 'T_surface': draw(_opt(f(800, 2500))), 'T_top': draw(_opt(f(300, 1500))),
                   'temperature_points': draw(_opt(st.lists(f(300, 2500), min_size=2, max_size=2))),
-                  'smoothing_window': draw(_opt(st.integers(3, 40)))}
-    c['pkeys'] = {'nlayers': draw(_opt(st.integers(3, 12))), 'atm_min_pressure': draw(_opt(f(1e-3, 1.0))), 'atm_max_pressure': draw(_opt(f(1e4, 1e7)))}
+                  'smoothing_window': draw(_opt(S.ints(3, 40)))}
+    c['pkeys'] = {'nlayers': draw(_opt(S.ints(3, 12))), 'atm_min_pressure': draw(_opt(f(1e-3, 1.0))), 'atm_max_pressure': draw(_opt(f(1e4, 1e7)))}
     c['plkeys'] = {'planet_mass': draw(_opt(f(0.5, 3.0))), 'planet_radius': draw(_opt(f(0.7, 1.6))), 'planet_distance': draw(_opt(f(0.01, 2.0))),
                    'impact_param': draw(_opt(f(0.0, 0.9))), 'orbital_period': draw(_opt(f(0.5, 20.0))), 'albedo': draw(_opt(f(0.0, 0.9))),
                    'transit_time': draw(_opt(f(1000, 9000)))}
     c['skeys'] = {'temperature': draw(_opt(f(3000, 9000))), 'radius': draw(_opt(f(0.3, 2.0))), 'distance': draw(_opt(f(1.0, 200.0))),
                   'magnitudeK': draw(_opt(f(5.0, 12.0))), 'mass': draw(_opt(f(0.3, 2.0))), 'metallicity': draw(_opt(f(0.5, 2.0)))}
-    ngas = draw(st.integers(1, 3))
+    ngas = draw(S.ints(1, 3))
     c['gases'] = []
     for i in range(ngas):
         # twopoint is an open known finding (undiscoverable class): kept rare so the search goes on behind it
         gt = draw(st.sampled_from(['constant', 'twolayer'] * 5 + ['twopoint']))
         c['gases'].append({'type': gt, 'mix_ratio': draw(_opt(f(-8, -3))), 'mix_ratio_surface': draw(_opt(f(-6, -3))),
                            'mix_ratio_top': draw(_opt(f(-9, -5))), 'mix_ratio_P': draw(_opt(f(1.0, 4.0))),
-                           'mix_ratio_smoothing': draw(_opt(st.integers(5, 40)))})
+                           'mix_ratio_smoothing': draw(_opt(S.ints(5, 40)))})
     c['ratio'] = draw(_opt(f(0.05, 0.4)))
     c['fill'] = draw(st.sampled_from([['H2', 'He'], ['H2', 'He', 'NO'], ['N2', 'NO'], ['H2', 'He'], ['H2', 'He', 'N2', 'CO']]))
-    c['mkeys'] = {'new_path_method': draw(_opt(st.booleans())), 'ngauss': draw(_opt(st.integers(1, 6)))}
+    c['mkeys'] = {'new_path_method': draw(_opt(st.booleans())), 'ngauss': draw(_opt(S.ints(1, 6)))}
     c['contribs'] = draw(st.lists(st.sampled_from(['CIA', 'Rayleigh', 'SimpleClouds', 'ThickClouds', 'FlatMie', 'LeeMie']), max_size=3, unique=True))
     c['ckeys'] = {'clouds_pressure': draw(_opt(f(1.0, 5.0))), 'flat_mix_ratio': draw(_opt(f(-28, -22))), 'flat_bottomP': draw(_opt(f(3.0, 5.0))),
                   'flat_topP': draw(_opt(f(0.5, 2.0))), 'lee_mie_radius': draw(_opt(f(0.01, 2.0))), 'lee_mie_q': draw(_opt(f(1.0, 80.0))),
                   'lee_mie_mix_ratio': draw(_opt(f(-16, -8))), 'lee_mie_bottomP': draw(_opt(f(3.0, 5.0))), 'lee_mie_topP': draw(_opt(f(0.5, 2.0)))}
     c['forms'] = draw(st.lists(NUMFORM, min_size=12, max_size=12))
-    c['boolform'] = draw(st.integers(0, 3))
+    c['boolform'] = draw(S.ints(0, 3))
     c['negative'] = draw(st.sampled_from([None, None, None, 'unknown-key', 'unknown-selector', 'unknown-contribution']))
     c['neg_where'] = draw(st.sampled_from(['Temperature', 'Pressure', 'Chemistry', 'Model', 'Gas', 'Contribution', 'Planet', 'Star']))
     c['composite'] = draw(st.sampled_from([None, None, None, 'mixin', 'custom']))
@@ -124,29 +126,29 @@ def _case(draw):
         c['gases'] = [g for g in c['gases'] if g['type'] != 'twopoint'] or [{'type': 'constant', 'mix_ratio': -4.0}]
         # --- [Observation]
         c['obs'] = draw(st.sampled_from(['file4', 'file3', None, 'file4']))
-        c['obs_rows'] = draw(st.integers(3, 8))
-        c['obs_perm'] = draw(st.permutations(list(range(8))))
+        c['obs_rows'] = draw(S.ints(3, 8))
+        c['obs_perm'] = draw(S.perm(list(range(8))))
         c['obs_vals'] = draw(st.lists(f(1e-3, 2e-2), min_size=8, max_size=8))
         c['obs_errs'] = draw(st.lists(f(1e-5, 1e-3), min_size=8, max_size=8))
         c['obs_wf'] = draw(st.lists(f(0.3, 1.0), min_size=8, max_size=8))
         # --- [Binning]
         c['binning'] = draw(st.sampled_from(['observed', 'manual', 'native', None, 'manual', 'observed']))
         c['bin_kind'] = draw(st.sampled_from(['wavelength_grid', 'log_wavenumber_grid', 'wavenumber_grid', 'log_wavelength_grid', 'wavelength_res']))
-        c['bin_n'] = draw(st.integers(2, 9))
+        c['bin_n'] = draw(S.ints(2, 9))
         c['bin_res'] = draw(f(3.0, 40.0))
         c['bin_span'] = draw(st.tuples(f(0.0, 0.4), f(0.6, 1.0)))
         c['accurate'] = draw(st.sampled_from([True, None, False]))
         # --- [Instrument]
         c['instrument'] = draw(st.sampled_from(['snr', None, 'SNR', 'signal-noise-ratio']))
         c['snr'] = draw(_opt(f(1.0, 500.0)))
-        c['num_obs'] = draw(_opt(st.integers(1, 30)))
+        c['num_obs'] = draw(_opt(S.ints(1, 30)))
         # --- [Optimizer]
         c['optimizer'] = draw(st.sampled_from(['multinest', 'nestle']))
-        c['okeys'] = {'num_live_points': draw(_opt(st.integers(5, 3000))), 'tol': draw(_opt(f(0.01, 5.0))),
+        c['okeys'] = {'num_live_points': draw(_opt(S.ints(5, 3000))), 'tol': draw(_opt(f(0.01, 5.0))),
                       'method': draw(_opt(st.sampled_from(['single', 'classic', 'multi']))), 'sigma_fraction': draw(_opt(f(0.01, 0.9))),
-                      'max_iterations': draw(_opt(st.integers(0, 5000))), 'evidence_tolerance': draw(_opt(f(0.01, 5.0))),
+                      'max_iterations': draw(_opt(S.ints(0, 5000))), 'evidence_tolerance': draw(_opt(f(0.01, 5.0))),
                       'search_multi_modes': draw(_opt(st.booleans())), 'importance_sampling': draw(_opt(st.booleans())),
-                      'maximum_modes': draw(_opt(st.integers(1, 200))), 'resume': draw(_opt(st.booleans())),
+                      'maximum_modes': draw(_opt(S.ints(1, 200))), 'resume': draw(_opt(st.booleans())),
                       'multinest_prefix': draw(_opt(st.sampled_from(['run-', 'x_', '2-'])))}
         c['oneg'] = draw(st.sampled_from([None, None, None, 'unknown-key', 'unknown-selector']))
         # --- [Fitting] / [Derive]
